@@ -248,14 +248,18 @@ def stats_rules(run, db):
         run.check(bool(reductions) and not raw, 'C12.stats', fi.qual, 'finite mask', 'every reduction in %s runs over array[isfinite(array)]' % name,
                   '%s reduces over samples that were not selected by the finite mask: %s' % (name, [r[0] for r in raw]), fi.loc(raw[0][2]) if raw else fi.loc())
     # delegation
+    from ..core.pattern import match_all
     for prop, callee in (('pv', 'pv'), ('rms', 'rms'), ('Sa', 'Sa'), ('std', 'std')):
         fi = db.func(I + '.' + prop)
         rets = [n_ for n_ in walk_no_nested(fi.node) if isinstance(n_, ast.Return)]
         ok = len(rets) == 1 and isinstance(rets[0].value, ast.Call) and ast.unparse(rets[0].value.func) == callee and [ast.unparse(a) for a in rets[0].value.args] == ['self.data']
+        ok = ok or match_all(fi.node, ['V_d = self.data', 'return %s(V_d)' % callee], ordered=True) is not None
         run.check(ok, 'C12.stats', fi.qual, 'delegation', 'Interferogram.%s == util.%s(self.data)' % (prop, callee), 'Interferogram.%s does not delegate to %s(self.data)' % (prop, callee), fi.loc())
     fi = db.func(I + '.remove_piston')
     src = [n_ for n_ in walk_no_nested(fi.node) if isinstance(n_, ast.AugAssign)]
-    ok = len(src) == 1 and isinstance(src[0].op, ast.Sub) and ast.unparse(src[0].target) == 'self.data' and ast.unparse(src[0].value) == 'mean(self.data)'
+    from ..core.pattern import match_all
+    ok = len(src) == 1 and (match_all(fi.node, ['self.data -= mean(self.data)']) is not None
+                            or match_all(fi.node, ['V_p = mean(self.data)', 'self.data -= V_p'], ordered=True) is not None)
     run.check(ok, 'C12.stats', fi.qual, 'piston', 'remove_piston subtracts the NaN-aware mean of the data', 'remove_piston does not subtract mean(self.data)', fi.loc())
 
 
@@ -312,6 +316,17 @@ def crop_rules(run, db):
                   '%s is indexed with [%s, %s] whose axes are (%s, %s), expected (0, 1)' % (ast.unparse(s.value), a, b, kept.get(a), kept.get(b)), fi.loc(s))
 
 
+def _edits_coordinates(fi):
+    for n in walk_no_nested(fi.node):
+        if isinstance(n, (ast.Assign, ast.AugAssign)):
+            tgts = n.targets if isinstance(n, ast.Assign) else [n.target]
+            for t in tgts:
+                for x in ast.walk(t):
+                    if isinstance(x, ast.Attribute) and isinstance(x.value, ast.Name) and x.value.id == 'self' and x.attr in ('x', 'y', '_x', '_y', 'dx'):
+                        return True
+    return False
+
+
 def coord_pure_rules(run, db):
     """The cached coordinate arrays handed out by x / y / r / t are never written in place by a method that only reads them."""
     from .purity import shared_entry_mutations
@@ -324,6 +339,10 @@ def coord_pure_rules(run, db):
             # a write spelled on the attribute itself (`self.x *= s`) is a mutator updating the coordinate on purpose and is judged by the
             # typestate rule; what must not happen is a write through a LOCAL alias of a cached array in a method that only reads it
             bad = [(st, nm, r) for st, nm, r in shared_entry_mutations(fi, tables=False, attr_sources=srcs) if nm not in srcs]
+            # a method whose job is to change the coordinates (it assigns a coordinate attribute or the spacing, or calls one that
+            # does) edits them on purpose, through whatever local name: it is judged by the typestate rule, not here
+            if bad and _edits_coordinates(fi):
+                bad = []
             for st, nm, r in bad:
                 run.finding('C12.cache', fi.qual, norm_stmt(st), '`%s` writes in place through `%s`, an alias of the cached coordinate array %s: the cache now holds a rescaled/edited grid that no longer '
                             'belongs to the data (every later reader of that coordinate, and a second call of this method, sees it)' % (norm_stmt(st), nm, r), fi.loc(st))
@@ -337,63 +356,117 @@ def fit_rules(run, db):
     """Tilt / power removal is a least-squares PROJECTION: the right-hand side of the fit is the data itself and the removed
     term is a combination of fitted basis terms with their own coefficients (then re-fitting the result finds nothing)."""
     I = 'prysm.interferogram.'
-    f = db.func(I + 'fit_plane')
-    calls = [n for n in walk_no_nested(f.node) if isinstance(n, ast.Call) and ast.unparse(n.func) == 'lstsq']
-    if len(calls) != 1 or len(calls[0].args) != 2 or not isinstance(calls[0].args[0], (ast.List, ast.Tuple)):
-        raise AnalysisError('fit_plane: lstsq([basis...], data) not found')
-    basis = [ast.unparse(e) for e in calls[0].args[0].elts]
-    rhs = calls[0].args[1]
-    run.check(isinstance(rhs, ast.Name) and rhs.id == 'z', 'C12.fit', f.qual, 'right-hand side', 'the plane is fitted to the data itself',
-              'fit_plane fits its basis %s to `%s` instead of the data z: unless everything subtracted from z lies in the span of the basis the fit is no longer a projection, '
-              'and removing tilt twice removes something the second time' % (basis, ast.unparse(rhs)), f.loc(calls[0]))
-    rets = [n for n in walk_no_nested(f.node) if isinstance(n, ast.Return)]
-    asg = {ast.unparse(n.targets[0]): n.value for n in walk_no_nested(f.node) if isinstance(n, ast.Assign)}
-    # the coefficient vector is the local the solve is bound to, whatever it is called
-    cos_ = [ast.unparse(n.targets[0]) for n in walk_no_nested(f.node) if isinstance(n, ast.Assign) and n.value is calls[0] and isinstance(n.targets[0], ast.Name)]
-    if len(cos_) != 1:
-        raise AnalysisError('fit_plane: the result of lstsq is not bound to one local')
-    CO = cos_[0]
-    expr = rets[0].value if rets else None
-    if isinstance(expr, ast.Name) and expr.id in asg:
-        expr = asg[expr.id]
-    terms = []
+    # decided by interpreting the two fit routines in NORM (arrays as elementwise symbols, the validity mask as a selector that
+    # does not change elementwise algebra) with the least-squares solve summarised: it records (basis columns, right-hand side)
+    # and hands back one coefficient symbol per column
+    from .common import norm_interp, returns
+    from ..core.interp import Value, Tup as _Tup
+    from ..core.norm import Rat
 
-    def split(e):
-        if isinstance(e, ast.BinOp) and isinstance(e.op, ast.Add):
-            split(e.left)
-            split(e.right)
-        else:
-            terms.append(e)
-    if expr is not None:
-        split(expr)
-    okt = bool(terms)
-    used = []
-    for t in terms:
-        if not (isinstance(t, ast.BinOp) and isinstance(t.op, ast.Mult)):
-            okt = False
-            break
-        a, b = ast.unparse(t.left).replace(' ', ''), ast.unparse(t.right).replace(' ', '')
-        ca, other = (a, b) if a.startswith(CO + '[') else (b, a)
-        if not ca.startswith(CO + '[') or other not in basis or ca != '%s[%d]' % (CO, basis.index(other)):
-            okt = False
-            break
-        used.append(other)
-    run.check(okt and len(set(used)) == len(used), 'C12.fit', f.qual, 'removed term', 'the returned plane is sum_i coefs[i] * basis[i] over fitted basis terms, each with its own coefficient',
-              'fit_plane returns `%s`, which is not a combination coefs[i]*basis[i] of the fitted basis %s' % (ast.unparse(expr) if expr is not None else '?', basis), f.loc())
-    from ..core.pattern import match_all
+    class MaskV(Value):
+        def __init__(self, of):
+            self.of = of
+
+        def __repr__(self):
+            return 'isfinite(%r)' % (self.of,)
+
+    def fit_interp():
+        it, dom = norm_interp(db)
+        solves = []
+        oe, om, osub, oga, opr = dom.call_ext, dom.method, dom.subscript, dom.getattr, dom.call_prysm
+
+        def columns(v):
+            return list(v.items) if isinstance(v, _Tup) else None
+
+        def solve(basis, rhs):
+            solves.append((basis, rhs))
+            return _Tup([dom.sym('coef%d' % k) for k in range(len(basis))])
+
+        def call_ext(dotted, args, kwargs, node):
+            last = dotted.rsplit('.', 1)[-1]
+            a0 = args[0] if args else None
+            if last == 'isfinite' and a0 is not None:
+                return MaskV(a0)
+            if last == 'linspace':
+                return dom.sym('lin%d' % getattr(node, 'lineno', 0))
+            if last == 'meshgrid' and len(args) == 2:
+                return _Tup([dom.sym('XX'), dom.sym('YY')])
+            if last in ('ones', 'ones_like'):
+                return Const(1)
+            if last in ('stack', 'column_stack', 'vstack', 'array') and a0 is not None and columns(a0) is not None:
+                return _Tup(list(a0.items), 'columns')
+            if dotted.endswith('linalg.lstsq') and len(args) >= 2 and columns(a0) is not None:
+                return _Tup([solve(columns(a0), args[1]), Const(None), Const(None), Const(None)])
+            return oe(dotted, args, kwargs, node)
+
+        def method(v, name, args, kwargs, node):
+            if name in ('flatten', 'ravel', 'copy') and dom.rat(v) is not None:
+                return v
+            return om(v, name, args, kwargs, node)
+
+        def subscript(v, idx, node):
+            if isinstance(idx, MaskV) and dom.rat(v) is not None:
+                return v
+            return osub(v, idx, node)
+
+        def getattr_(v, name, node):
+            if name == 'T' and isinstance(v, _Tup) and v.kind == 'columns':
+                return v
+            if name == 'shape' and dom.rat(v) is not None:
+                return _Tup([dom.sym('rows'), dom.sym('cols')])
+            return oga(v, name, node)
+
+        def call_prysm(fi, args, kwargs, node):
+            if fi.qual == 'prysm.polynomials.lstsq' and len(args) >= 2 and columns(args[0]) is not None:
+                return solve(columns(args[0]), args[1])
+            if fi.name == 'cart_to_polar':
+                return _Tup([dom.sym('RR'), dom.sym('TT')])
+            return opr(fi, args, kwargs, node) if opr else None
+        dom.call_ext, dom.method, dom.subscript, dom.getattr, dom.call_prysm = call_ext, method, subscript, getattr_, call_prysm
+        return it, dom, solves
+    f = db.func(I + 'fit_plane')
+    it, dom, solves = fit_interp()
+    res = returns(it.run(f, kwargs=lambda: {'x': dom.sym('x'), 'y': dom.sym('y'), 'z': dom.sym('z')}), f)
+    if len(res) != 1 or len(solves) != 1:
+        raise AnalysisError('fit_plane: expected one path with one least-squares solve, got %d / %d' % (len(res), len(solves)))
+    basis, rhs = solves[0]
+    R = dom.R
+    A = lambda nme: Rat(R.atom(nme))
+    brat = [dom.rat(b) for b in basis]
+    rr = dom.rat(rhs)
+    run.check(rr is not None and rr == A('z'), 'C12.fit', f.qual, 'right-hand side', 'the plane is fitted to the data itself',
+              'fit_plane fits its basis to `%s` instead of the data z: unless everything subtracted from z lies in the span of the basis the fit is no longer a projection, '
+              'and removing tilt twice removes something the second time' % (rr.key() if rr is not None else repr(rhs)), f.loc())
+    got = dom.rat(res[0].value)
+    want = None
+    if all(b is not None for b in brat):
+        want = Rat(R.const(0))
+        for k, b in enumerate(brat):
+            want = want + A('coef%d' % k) * b
+    okt = got is not None and want is not None and got == want and {b.key() for b in brat} >= {'x', 'y'}
+    run.check(okt, 'C12.fit', f.qual, 'removed term', 'the returned plane is sum_i coefs[i] * basis[i] over fitted basis terms (x and y among them), each with its own coefficient',
+              'fit_plane returns %s, which is not the combination %s of its fitted basis with their own coefficients' % (got.key() if got is not None else '?', want.key() if want is not None else '?'), f.loc())
     fs = db.func(I + 'fit_sphere')
-    bs = match_all(fs.node, ['V_pts = np.isfinite(z)',
-                             'V_focus = V_rho ** 2',
-                             'V_c = np.linalg.lstsq(np.stack([V_focus.flatten(), np.ones(V_focus.shape)]).T, z[V_pts].flatten(), rcond=None)[0]',
-                             'V_sphere = V_focus * V_c[0]',
-                             'return V_pts, V_sphere'])
-    if bs is None:
-        bs = match_all(fs.node, ['V_pts = np.isfinite(z)',
-                                 'V_focus = V_rho ** 2',
-                                 'V_c = np.linalg.lstsq(np.stack([V_focus.flatten(), np.ones(V_focus.shape)]).T, z[V_pts].flatten(), rcond=None)[0]',
-                                 'V_sphere = V_c[0] * V_focus',
-                                 'return V_pts, V_sphere'])
-    run.check(bs is not None, 'C12.fit', fs.qual, 'power fit', 'power is fitted to the valid data with basis [rho^2, 1]; the removed term is coefs[0] * rho^2 over the valid samples', 'fit_sphere fit / removed term changed', fs.loc())
+    it, dom, solves = fit_interp()
+    res = returns(it.run(fs, kwargs=lambda: {'z': dom.sym('z')}), fs)
+    if len(res) != 1 or len(solves) != 1:
+        raise AnalysisError('fit_sphere: expected one path with one least-squares solve, got %d / %d' % (len(res), len(solves)))
+    basis, rhs = solves[0]
+    R = dom.R
+    A = lambda nme: Rat(R.atom(nme))
+    focus = A('XX') * A('XX') + A('YY') * A('YY')
+    brat = [dom.rat(b) for b in basis]
+    v = res[0].value
+    oks = isinstance(v, _Tup) and len(v.items) == 2 and isinstance(v.items[0], MaskV) and dom.rat(v.items[0].of) is not None and dom.rat(v.items[0].of) == A('z') \
+        and len(brat) == 2 and all(b is not None for b in brat) and dom.rat(rhs) is not None and dom.rat(rhs) == A('z')
+    if oks:
+        kf = [k for k, b in enumerate(brat) if b == focus]
+        k1 = [k for k, b in enumerate(brat) if b == Rat(R.const(1))]
+        oks = len(kf) == 1 and len(k1) == 1 and dom.rat(v.items[1]) is not None and dom.rat(v.items[1]) == focus * A('coef%d' % kf[0])
+    run.check(oks, 'C12.fit', fs.qual, 'power fit', 'power is fitted to the valid data with basis [rho^2, 1]; the removed term is its own coefficient times rho^2 over the valid samples',
+              'fit_sphere: basis %s, right-hand side %s, returns %r -- not (isfinite(z), coef_rho2 * rho^2) from a fit of [rho^2, 1] to the valid data'
+              % ([b.key() if b is not None else '?' for b in brat], dom.rat(rhs).key() if dom.rat(rhs) is not None else repr(rhs), v), fs.loc())
+    from ..core.pattern import match_all
     fr = db.func(I + 'Interferogram.remove_tiptilt')
     bt = match_all(fr.node, ['V_p = fit_plane(self.x, self.y, self.data)', 'self.data -= V_p'], ordered=True) or match_all(fr.node, ['self.data -= fit_plane(self.x, self.y, self.data)'])
     run.check(bt is not None, 'C12.fit', fr.qual, 'tilt removal', 'the plane fitted to (x, y, data) is subtracted from the data',
